@@ -81,6 +81,12 @@ where
     /// let mut g = Graph::<&str, u64, u64>::new();
     /// ```
     pub fn new() -> Self {
+        #[cfg(gdsl_verif)]
+        if let Some(s) = crate::verif::hash_state() {
+            return Self {
+                nodes: HashMap::with_hasher(s),
+            };
+        }
         Self {
             nodes: HashMap::default(),
         }
@@ -96,6 +102,12 @@ where
     /// let mut g = Graph::<&str, u64, u64>::with_capacity(42);
     /// ```
     pub fn with_capacity(capacity: usize) -> Self {
+        #[cfg(gdsl_verif)]
+        if let Some(s) = crate::verif::hash_state() {
+            return Self {
+                nodes: HashMap::with_capacity_and_hasher(capacity, s),
+            };
+        }
         Self {
             nodes: HashMap::with_capacity(capacity),
         }
